@@ -159,7 +159,10 @@ def apply_step(ops, step, prefixes=None, tables=None):
     if op in ("natural_join", "concat_rows"):
         b = step["b"]
         if isinstance(b, dict) and "prefix" in b:
+            # the state's own earlier prefix as the same object, optionally continued by further steps
             bops = prefixes[b["prefix"]]
+            for st2 in b.get("steps", []):
+                bops = apply_step(bops, st2, prefixes=prefixes, tables=tables)
         else:
             bops = build(b, tables=tables)
         if op == "natural_join":
@@ -232,7 +235,7 @@ def short(hist):
             parts.append(f"select_rows({render(st['expr'])})")
         elif op in ("natural_join", "concat_rows"):
             b = st["b"]
-            bs = f"<prefix {b['prefix']}>" if "prefix" in b else short(b)
+            bs = (f"<prefix {b['prefix']}>" + "".join(" . " + short({"table": "", "steps": [x]})[3:] for x in b.get("steps", []))) if "prefix" in b else short(b)
             extra = ", ".join(f"{k}={st[k]!r}" for k in st if k not in ("op", "b"))
             parts.append(f"{op}({bs}, {extra})")
         elif op == "convert_records":
